@@ -196,6 +196,17 @@ def t_jitter(it, which):
         p.assume(attempt.t >= 1)
         klass = it.fresh_enum(it.tree.cls("redress.errors:ErrorClass"), "klass")
         prev = prev_sleep_arg(it)
+        from pyvc.modelval import val
+        pth = it.path
+
+        def spec(m):
+            pn = val(m, prev.none)
+            pk = val(m, prev.val.k)
+            draws = pth.ghost.get("draws", [])
+            return {"component": "strategy", "which": which, "base_s": val(m, base.v), "max_s": val(m, max_s.v), "attempt": val(m, attempt.t),
+                    "prev": None if pn is True else ("inf" if pk == 1 else val(m, prev.val.v)), "r": val(m, draws[0]) if draws else 0.0}
+
+        pth.replay_spec = spec
         r = call_catch(it, f, [attempt, klass, prev])
         if r[0] == "exc":
             e = r[1]
@@ -539,3 +550,7 @@ for _t in TASKS:
     _t.assumptions = ["C18: parameters are finite doubles with 0 <= base_s <= max_s; previous delay is None or in [0, +inf]; "
                       "AdaptiveStrategy's success flags are abstracted (0 <= failures <= total)",
                       "C20 honouring: max(0, hint) + jitter_s stays within float range"]
+
+for _t in TASKS:
+    if _t.name.split(".")[-1] in ("decorrelated_jitter", "equal_jitter", "token_backoff"):
+        _t.replay_script = "model_replay.py"
